@@ -278,12 +278,86 @@ def pool_map_designs(designs):
     return pool_map(design_case, designs)
 
 
+# ---------------------------------------------------------------- pam_seq under background variants, end to end through the models
+
+BG_IMPORTS = ['Model.Base', 'Model.Pattern', 'Model.Seq', 'Model.Gpo', 'Model.Targeton', 'Model.Context', 'Model.PpeSeq', 'Model.LiftTargeton', 'Model.PamSeqBg']
+
+
+def background_pam_seq(ctx: Ctx):
+    """Designs with background variants (substitutions anywhere, non-coding indels upstream of / inside / downstream of the targetons) and
+    PAM edits: the pam_seq column of every targeton = pam_seq_under_background of the model (context, offsets, background sequence, lifted
+    targeton, lifted edits, application), and = the independent cell-map liftover."""
+    from .. import bg
+    n = ctx.n(40, 500)
+    designs, tries = [], 0
+    while len(designs) < n and tries < 20 * n:
+        tries += 1
+        d = gen.gen_sge(ctx.rng, {'p_bg': 1.0, 'p_mask': 0.2, 'allow_junction_pam': False, 'p_gtf': 0.85, 'p_custom': 0.0, 'p_pam': 1.0, 'n_pam': [1, 2, 3, 4],
+                                  'bg_kinds': ['snv', 'ins', 'ins', 'del', 'del', 'mnv'], 'bg_upstream': ctx.rng.random() < 0.7, 'p_pam_edge': 0.3, 'p_pam_outside': 0.3})
+        if d.get('bg') and bg.lift_design(d) is not None:
+            designs.append(d)
+    exprs, meta = [], []
+    for d, r in pool_map_designs(designs):
+        if r['exit'] != 0:
+            ctx.count('background_designs_refused')       # PAM edit on a changed base, protein-changing variant ...: C15's rules
+            continue
+        ctx.count('background_designs')
+        U = d['ref'].upper()
+        allv = bg.unmasked_variants(d)
+        exons = gen.exons_of(d)
+        bgs = coq_list(f'mkVar {p_} {coq_dna(r_)} {coq_dna(a_)}' for p_, r_, a_ in allv)
+        _, L = bg.lift_design(d)
+        if exons:
+            groups = [d['targetons']]
+        else:
+            groups = [[t] for t in d['targetons']]
+        for grp in groups:
+            los = [t['ref_start'] for t in grp] + [e[0] for e in exons]
+            his = [t['ref_end'] for t in grp] + [e[1] for e in exons]
+            ca, cb = min(los) - (1 if min(los) > 1 else 0), max(his)
+            for t in grp:
+                name = sge.sge_targeton_name(d['contig'], d['strand'], t)
+                rows = sge.all_meta_rows(r['files'], name)
+                if not rows:
+                    continue
+                ids = set(t.get('sgrna') or [])
+                listed = [e for e in (d.get('pam') or []) if e['sgrna'] in ids]
+                ctx.evaluations += 1
+                if any(len(r_) != len(a_) and p_ <= t['ref_end'] for p_, r_, a_ in allv):
+                    ctx.nontriv((common.sha(d), name, 'bg'))
+                ppes = coq_list(f"mkVar {e['pos']} {coq_dna(e['ref'])} {coq_dna(e['alt'])}" for e in listed)
+                exprs.append(f"pam_seq_agrees (pam_seq_under_background {coq_dna(U)} {bgs} (mkRange {ca} {cb}) "
+                             f"(mkT (mkRange {t['ref_start']} {t['ref_end']}) (mkRange {t['r2_start']} {t['r2_end']}) {t['ext'][0]} {t['ext'][1]}) "
+                             f"{'true' if ids else 'false'} {ppes}) {coq_str(rows[0]['pam_seq'])}")
+                meta.append({'surface': 'file', 'design': d, 'targeton': name, 'kind': 'pam_seq_bg_model'})
+                # independent: the background sequence over the lifted targeton with the in-range edits at their images
+                a2, b2 = L.r2a(t['ref_start']), L.r2a(t['ref_end'])
+                exp = list(L.alt[a2 - 1:b2])
+                for e in listed:
+                    q = L.r2a(e['pos'])
+                    if q is not None and a2 <= q <= b2:
+                        exp[q - a2] = e['alt']
+                if rows[0]['pam_seq'] != ''.join(exp):
+                    ctx.violation('spec_violation', 'pam_seq under background variants: not the background sequence of the lifted targeton with the in-range edits at their images',
+                                  {'surface': 'file', 'design': d, 'targeton': name, 'kind': 'pam_seq_bg'})
+    bad, err = coq_eval(BG_IMPORTS, exprs, chunk=40)
+    ctx.corr['cases'] += len(exprs)
+    ctx.count('pam_seq_under_background_through_model', len(exprs))
+    if err:
+        ctx.violation('correspondence', 'model evaluation failed: ' + err[:300], broken='coqc cases (C07 pam_seq under background)', no_input=True)
+    for i in bad[:20]:
+        ctx.corr['disagreements'] += 1
+        ctx.violation('correspondence', f"pam_seq of {meta[i]['targeton']} under background variants differs from the model (pam_seq_under_background)", meta[i],
+                      broken='correspondence S-file get_gpo_ctx / get_ctx_seq_bg / lift_targeton_config / get_ppe_seq (Model/PamSeqBg.v)')
+
+
 MATCHERS = {'junction_codon_halves': lambda c: c.get('kind') == 'pam_mut_sgrna_id' and bool(c.get('junction_codon'))}
 
 
 def run(ctx: Ctx):
     views(ctx)
     files(ctx)
+    background_pam_seq(ctx)
     return {'rule': 'S-api: the real data/ddl.sql, insert_targeton_ppes and sql_select_meta executed in SQLite on generated exon tables (1-3 exons, both strands, '
                     'frames), 0-6 edits of 1-4 sgRNAs (incl. shifted targeton-level positions) and 3-12 mutations of length 0-8: every join column and the sgRNA '
                     'aggregate compared with the Coq model of the view, and with the spec of pam_mut_sgrna_id; S-file: random designs with 1-5 edits per targeton, '
